@@ -91,6 +91,7 @@ type Config struct {
 	IOErrPerMille int
 
 	CondSignalAny bool // Signal wakes a tape-chosen waiter instead of the oldest
+	UnlockYields  bool // releasing a lock is a yield point too: others can see the lock held (TryLock, a pending writer)
 	MapOrderFixed bool // RangeMap iterates in canonical sorted order (no draws)
 	ReadDirPerm   bool // unsorted directory listings are permuted per directory generation
 	SplitWrites   bool // file writes are split in two (a yield in between)
